@@ -41,7 +41,9 @@ SHARD_TIMEOUT = {"quick": 900, "thorough": 5400}
 CLASH_KINDS = ["new_cells_clash", "new_space_clash", "model_new_space_clash", "model_ref_clash_space",
                "rename_cells_clash", "rename_cells_clash_sub_cells", "rename_cells_clash_sub_member",
                "rename_space_clash", "ref_clash_cells", "ref_clash_sub_member",
-               "cells_clash_sub_member", "add_bases_kind_conflict", "setattr_nonscalar_cells",
+               "cells_clash_sub_member", "add_bases_kind_conflict", "add_bases_kind_conflict_in_sub",
+               "new_space_kind_conflict", "new_space_refs_conflict", "new_cells_funcname_clash",
+               "setattr_nonscalar_cells",
                "new_cells_badname", "rename_cells_badname", "rename_space_badname"]
 ABSENT = ["qq1", "nothing_here", "zz9", "Xx"]
 SYS = {"_self", "_space", "_model"}
@@ -55,7 +57,7 @@ def gen_cases(tier, seed):
         yield {"id": "d%d" % j, "directed": j}
 
 
-DIRECTED = ["A", "F", "T", "Z"]
+DIRECTED = ["A", "F", "T", "Z", "LL", "MM"]
 
 
 def expand(case):
